@@ -160,13 +160,13 @@ def shrink(plan):
 
 
 # ------------------------------------------------------------------ oracle helpers
-def _expected_len(scene, kind):
+def _expected_len(scene, kind, uio=True):
     """Number of samples: non-empty (user) instances for 'centered', frames holding one otherwise."""
     n_frames = n_inst = 0
     for f in scene["frames"]:
         insts = f["instances"]
         users = [i for i in insts if not i["pred"]]
-        use = users if users else insts
+        use = users if (users and uio) else insts  # user_instances_only=False: predicted instances are training data too
         ne = [i for i in use if any(p[0] == p[0] for p in i["pts"])]
         if ne:
             n_frames += 1
@@ -207,12 +207,12 @@ class DS:
         return fresh[i]
 
 
-def _truth_for_index(scene, kind, i):
+def _truth_for_index(scene, kind, i, uio=True):
     """(frame dict, list of instances used, instance position) for sample i, mirroring the documented filtering."""
     k = 0
     for f in scene["frames"]:
         users = [x for x in f["instances"] if not x["pred"]]
-        use = users if users else f["instances"]
+        use = users if (users and uio) else f["instances"]
         ne = [x for x in use if any(p[0] == p[0] for p in x["pts"])]
         if kind == "centered":
             for x in use:
@@ -231,7 +231,7 @@ def _truth_for_index(scene, kind, i):
 def _check_sample_semantics(D, i, s):
     """NaN-in => NaN-out, zero maps for missing nodes, centroid fallback."""
     scene, kind, cfg = D.scene, D.kind, D.cfg
-    f, insts, one = _truth_for_index(scene, kind, i)
+    f, insts, one = _truth_for_index(scene, kind, i, cfg.get("user_instances_only", True))
     if f is None:
         return f"sample {i} exists but the labels have no such non-empty item"
     if kind == "centered":
@@ -336,7 +336,7 @@ def _execute(plan, choices=None):
             if ch:
                 V("labels_mutated", f"build:{spec['kind']}", f"building the {spec['kind']} dataset changed the labels: {ch}")
                 break
-            exp_len = _expected_len(scene, spec["kind"])
+            exp_len = _expected_len(scene, spec["kind"], spec["cfg"].get("user_instances_only", True))
             if len(D.ds) != exp_len:
                 V("wrong_length", spec["kind"], f"len({spec['kind']} dataset)={len(D.ds)} but the labels hold {exp_len} non-empty items; scene={describe(plan)['frames']}")
                 break
